@@ -8,6 +8,7 @@ pub mod c06;
 pub mod c07;
 pub mod c09;
 pub mod c10;
+pub mod c11;
 pub mod c12;
 pub mod c13;
 pub mod c14;
@@ -27,6 +28,7 @@ pub fn lookup(id: &str) -> Option<fn(&Report, bool) -> Evidence> {
         "C08" => c07::run_c08,
         "C09" => c09::run,
         "C10" => c10::run,
+        "C11" => c11::run,
         "C12" => c12::run,
         "C13" => c13::run,
         "C14" => c14::run,
